@@ -406,4 +406,41 @@ def flowRun (giveBack : Bool) (s : Flow) : List Exch → Flow
   | [] => s
   | e :: es => flowRun giveBack (flowStep giveBack s e) es
 
+/-! ## (f) destination of the NTS-protected request along a history of key exchanges on one client -/
+
+/-- key exchange data as far as the destination goes: the server name as the exchange gave it, what
+    `net.ParseIP` makes of it (`none`: no IP literal), the port -/
+structure KxDest where
+  name : String
+  parsed : Option (List Nat)
+  port : Nat
+deriving Repr, DecidableEq
+
+/-- One call: the code writes `remoteAddr.IP = net.ParseIP(Server)` and `remoteAddr.Port = Port` into the
+    caller's long-lived address object (`held`) unconditionally, then sends to it. Result: the address
+    object afterwards and the destination (`ClientNtp.ntsDestination`). -/
+def destStep (held : List Nat × Nat) (kx : KxDest) : (List Nat × Nat) × Option (List Nat × Nat) :=
+  ((match kx.parsed with
+    | some lit => ((unmapIP lit).getD lit, kx.port)
+    | none => ([], kx.port)),
+   ntsDestination held kx.parsed kx.port)
+
+/-- the destinations of consecutive calls on one client / one address object -/
+def destHistory : (List Nat × Nat) → List KxDest → List (Option (List Nat × Nat))
+  | _, [] => []
+  | held, kx :: rest => (destStep held kx).2 :: destHistory (destStep held kx).1 rest
+
+/-- The variant: the parsed address (with its port) is cached in the client, keyed by the server NAME
+    only, and refreshed when the association names another server. -/
+def destStepNameCache (cache : Option (String × Option (List Nat × Nat))) (kx : KxDest) :
+    Option (String × Option (List Nat × Nat)) × Option (List Nat × Nat) :=
+  let fresh := ntsDestination ([], 0) kx.parsed kx.port
+  match cache with
+  | some (n, d) => if n ≠ kx.name then (some (kx.name, fresh), fresh) else (cache, d)
+  | none => (some (kx.name, fresh), fresh)
+
+def destHistoryNameCache : Option (String × Option (List Nat × Nat)) → List KxDest → List (Option (List Nat × Nat))
+  | _, [] => []
+  | c, kx :: rest => (destStepNameCache c kx).2 :: destHistoryNameCache (destStepNameCache c kx).1 rest
+
 end ScionTime.ClientFlow
